@@ -217,7 +217,7 @@ void resourceLayout(Ctx& ctx, const Layout& L, const std::string& label)
 		if (o.cls != 'R') { bad("type-listing-throws", key, o.what); continue; }
 		std::string dotted = !e.empty() && e[0] != '.' ? "." + e : e;
 		// lower bound: loose regular files whose extension equals the query exactly
-		for (auto& f : loose) if (!e.empty() && extOf(f) == e && std::find(got.begin(), got.end(), f) == got.end()) bad("type-listing-misses-loose-file", key, f);
+		for (auto& f : loose) if (extOf(f) == e && std::find(got.begin(), got.end(), f) == got.end()) bad("type-listing-misses-loose-file", key, f);
 		// upper bound: nothing that fails a case-insensitive extension match; no directories; members only with archive access
 		for (auto& g : got) {
 			bool isLoose = std::find(loose.begin(), loose.end(), g) != loose.end();
@@ -228,7 +228,7 @@ void resourceLayout(Ctx& ctx, const Layout& L, const std::string& label)
 		}
 		if (access) {
 			// every member with an exactly matching extension is present itself or shadowed by an entry equal ignoring case
-			for (auto& am : archiveMembers) for (auto& m : am.second) if (!dotted.empty() && extOf(m) == dotted) { bool ok = false; for (auto& g : got) if (ref::equalFold(g, m)) ok = true; if (!ok) bad("type-listing-misses-member", key, m); }
+			for (auto& am : archiveMembers) for (auto& m : am.second) if (extOf(m) == dotted) { bool ok = false; for (auto& g : got) if (ref::equalFold(g, m)) ok = true; if (!ok) bad("type-listing-misses-member", key, m); }
 			// a member appears only if no name already listed equals it ignoring case
 			for (std::size_t i = 0; i < got.size(); ++i) for (std::size_t j = i + 1; j < got.size(); ++j) if (ref::equalFold(got[i], got[j])) { bool bothLoose = std::find(loose.begin(), loose.end(), got[i]) != loose.end() && std::find(loose.begin(), loose.end(), got[j]) != loose.end() && got[i] != got[j]; if (!bothLoose) bad("type-listing-duplicate-ignoring-case", key, got[i] + " / " + got[j]); }
 		}
